@@ -169,14 +169,8 @@ Definition execute (sp : br_spec) (old : br_status) (s : br_status) (w : clonese
   | _ => do_prepare (set_phase s PhPreparing)
   end.
 
-(* one Reconcile *)
-Definition reconcile (sp : br_spec) (st : br_status) (w : cloneset) : option br_result :=
-  (* handleFinalizer *)
-  if sp_deleting sp && brphase_eqb (bs_phase st) PhCompleted && sp_finalizer sp then
-    Some {| r_status := st; r_workload := w; r_finalizer := false; r_requeue := RqNone; r_err := false; r_upgraded := None |}
-  else
-  let fin := true in
-  (* executor.Do *)
+(* syncStatusBeforeExecuting up to refreshStatus: the synchronised status and whether this round stops *)
+Definition sync_status (sp : br_spec) (st : br_status) (w : cloneset) : br_status * bool :=
   let s0 := match bs_phase st with PhInitial => reset_status st | _ => st end in
   let '(ev, has_info) := sync_workload sp s0 w in
   let prog := is_progressing st in
@@ -188,9 +182,10 @@ Definition reconcile (sp : br_spec) (st : br_status) (w : cloneset) : option br_
            (* signalRecalculate (rollout-id unchanged) *)
            let b := match sp_partition sp with Some p => Z.min p (zlen (sp_plan sp) - 1) | None => 0 end in
            (set_counts (set_batch s0 b SUpgrading false) (bs_updated s0) (bs_updated_ready s0) (sp_hash sp), false)
-      else if (zlen (sp_plan sp) <=? bs_batch st) && prog then (reset_status s0, false)
+      else if (zlen (sp_plan sp) <=? bs_batch st) && prog then (set_gen_cond (reset_status s0) 0 false, false)   (* signalRestartAll: a fresh status *)
       else match ev with
-           | EvGone => if negb (brphase_eqb (bs_phase st) PhInitial) then (set_phase s0 PhFinalizing, false) else (s0, false)
+           | EvGone => if negb (brphase_eqb (bs_phase st) PhInitial) && negb (brphase_eqb (bs_phase st) (PhOther "Initial"))
+                       then (set_phase s0 PhFinalizing, false) else (s0, false)
            | EvReplicasChanged => if prog then (set_revs (set_batch s0 (bs_batch s0) SUpgrading false) (bs_stable s0) (bs_update s0) (w_replicas w), false) else (s0, false)
            | EvTemplateChanged => if prog then (set_revs s0 (bs_stable s0) (w_update_rev w) (bs_obs_replicas s0), true) else (s0, false)
            | EvReconciling => (s0, true)
@@ -198,11 +193,19 @@ Definition reconcile (sp : br_spec) (st : br_status) (w : cloneset) : option br_
            | EvNormal => (s0, false)
            end in
   (* refreshStatus *)
-  let s2 := set_counts s1 (if has_info then w_st_updated w else bs_updated s1) (if has_info then w_st_updated_ready w else bs_updated_ready s1)
-                       (if sempty (bs_hash s1) then sp_hash sp else bs_hash s1) in
+  (set_counts s1 (if has_info then w_st_updated w else bs_updated s1) (if has_info then w_st_updated_ready w else bs_updated_ready s1)
+              (if sempty (bs_hash s1) then sp_hash sp else bs_hash s1), stop).
+
+(* one Reconcile *)
+Definition reconcile (sp : br_spec) (st : br_status) (w : cloneset) : option br_result :=
+  (* handleFinalizer *)
+  if sp_deleting sp && brphase_eqb (bs_phase st) PhCompleted && sp_finalizer sp then
+    Some {| r_status := st; r_workload := w; r_finalizer := false; r_requeue := RqNone; r_err := false; r_upgraded := None |}
+  else
+  let '(s2, stop) := sync_status sp st w in
   let need_retry := negb (status_eqb st s2) in
   let finish (s : br_status) (w' : cloneset) (rq : requeue) (err : bool) (up : option Z) :=
-      Some {| r_status := set_gen_cond s (sp_generation sp) (bs_cond s); r_workload := w'; r_finalizer := fin; r_requeue := rq; r_err := err; r_upgraded := up |} in
+      Some {| r_status := set_gen_cond s (sp_generation sp) (bs_cond s); r_workload := w'; r_finalizer := true; r_requeue := rq; r_err := err; r_upgraded := up |} in
   if need_retry then finish s2 w RqAfter false None
   else if stop then finish s2 w RqNone false None
   else match execute sp st s2 w with
